@@ -237,16 +237,107 @@ tdes_wire!(tdes_eee3_wire, TdesEee3, 24, |k, x| ue(kp(k, 2), ue(kp(k, 1), ue(kp(
 //@ harness name=tdes_eee2_wire prop=C05 tier=quick bits=192 stub=1 est=30 desc="W: TdesEee2 == E_k1(E_k2(E_k1(.))) and inverse; all 2^128 keys, all blocks"
 tdes_wire!(tdes_eee2_wire, TdesEee2, 16, |k, x| ue(kp(k, 0), ue(kp(k, 1), ue(kp(k, 0), x))), |k, x| ud(kp(k, 0), ud(kp(k, 1), ud(kp(k, 0), x))));
 
-// Round trips of the four TDES types (C01): single DES as an uninterpreted *bijection pair* per key part would need a
-// keyed uf_bij; instead: arbitrary state (three arbitrary subkey arrays, superset of all keys), real rounds with f
-// uninterpreted -- any f gives an invertible Feistel network.
+// Round trips of the four TDES types (C01), decomposed (the direct form with every one of the 192 cipher-function calls in
+// one uninterpreted-function log needed 1.25 M program steps and ran out of memory):
+//   (1) des_state_roundtrip: single DES on an ARBITRARY subkey array is invertible in both orders (Feistel network, f
+//       uninterpreted: any function works);
+//   (2) tdes_*_roundtrip: the TDES types on an arbitrary state (two or three arbitrary subkey arrays) with
+//       Des::encrypt / Des::decrypt replaced by an uninterpreted KEYED BIJECTION PAIR -- keyed by the whole subkey array
+//       of the instance they are called on -- which is exactly what (1) establishes about them.  Decides the composition
+//       order of decryption against encryption and which instance is used where.
+
+//@ harness name=des_state_roundtrip prop=C01,C20 tier=quick bits=1088 stub=1 est=120 desc="W: single DES on an arbitrary subkey array: decrypt(encrypt(x)) == x and encrypt(decrypt(x)) == x for all blocks (real IP/FP/round wiring and subkey order, f uninterpreted)"
+verif_harness! {
+    name: des_state_roundtrip,
+    bytes: 128 + 8,
+    unwind: 140,
+    stubs: [(crate::utils::f, stub_f96)],
+    prop: |inp| {
+        let mut d = Des { keys: [0u64; 16] };
+        let mut i = 0;
+        while i < 16 {
+            d.keys[i] = take_u64(inp, 8 * i);
+            i += 1;
+        }
+        let x = take_u64(inp, 128);
+        vcheck!(d.decrypt(d.encrypt(x)) == x);
+        Some(d.encrypt(d.decrypt(x)) == x)
+    }
+}
+
+// keyed bijection log: entry j says  E_{K[j]}(A[j]) = B[j]  (equivalently D_{K[j]}(B[j]) = A[j])
+#[cfg(kani)]
+mod kb {
+    pub static mut K: [[u64; 16]; 16] = [[0; 16]; 16];
+    pub static mut A: [u64; 16] = [0; 16];
+    pub static mut B: [u64; 16] = [0; 16];
+    pub static mut N: usize = 0;
+}
+#[cfg(kani)]
+fn kb_link(keys: &[u64; 16], a: u64, b: u64) {
+    unsafe {
+        let n = kb::N;
+        kani::assert(n < 16, "VERIF_UF_CAPACITY");
+        let (ks, aa, bb) = (kb::K, kb::A, kb::B);
+        let mut ok = true;
+        let mut j = 0;
+        while j < n {
+            let mut same = true;
+            let mut w = 0;
+            while w < 16 {
+                same &= ks[j][w] == keys[w];
+                w += 1;
+            }
+            // under the same key the logged pairs form a partial injective map
+            ok &= !same | ((aa[j] == a) == (bb[j] == b));
+            j += 1;
+        }
+        kani::assume(ok);
+        kb::K[n] = *keys;
+        kb::A[n] = a;
+        kb::B[n] = b;
+        kb::N = n + 1;
+    }
+}
+pub fn stub_des_enc_bij(d: &Des, x: u64) -> u64 {
+    #[cfg(kani)]
+    {
+        let y: u64 = kani::any();
+        kb_link(&d.keys, x, y);
+        return y;
+    }
+    #[cfg(not(kani))]
+    return rd_state_crypt(d, x, false);
+}
+pub fn stub_des_dec_bij(d: &Des, y: u64) -> u64 {
+    #[cfg(kani)]
+    {
+        let x: u64 = kani::any();
+        kb_link(&d.keys, x, y);
+        return x;
+    }
+    #[cfg(not(kani))]
+    return rd_state_crypt(d, y, true);
+}
+/// native meaning of the stubs (never used under Kani): the oracle's DEA on the instance's subkey array
+#[allow(dead_code)]
+fn rd_state_crypt(d: &Des, x: u64, decrypt: bool) -> u64 {
+    let mut ks = [0u64; 16];
+    let mut i = 0;
+    while i < 16 {
+        ks[i] = d.keys[i] >> 16;
+        i += 1;
+    }
+    rd::crypt_with(x, &ks, decrypt, rd::f)
+}
+
 macro_rules! tdes_roundtrip {
     ($name:ident, $ty:ident { $($f:ident),+ }, $n:expr) => {
         verif_harness! {
             name: $name,
             bytes: $n * 128 + 8,
             unwind: 400,
-            stubs: [(crate::utils::f, stub_f96)],
+            stubs: [(crate::des::Des::encrypt, stub_des_enc_bij), (crate::des::Des::decrypt, stub_des_dec_bij)],
             prop: |inp| {
                 // the fields of the TDES structs are private to crate::tdes; an arbitrary state is built in place from
                 // symbolic bytes (every byte pattern is a valid state: two or three arrays of sixteen u64 subkeys)
@@ -271,13 +362,13 @@ uf2!(uf_f96, u64, u64, u64, [B0 B1 B2 B3], conc_f);
 pub fn stub_f96(input: u64, key: u64) -> u64 {
     uf_f96::call(input & 0xFFFF_FFFF_0000_0000, key) & 0xFFFF_FFFF_0000_0000
 }
-//@ harness name=tdes_ede3_roundtrip prop=C01 tier=quick bits=3136 stub=1 est=200 desc="W: TdesEde3 dec(enc(b)) == b and enc(dec(b)) == b on an arbitrary state (three arbitrary subkey arrays), all blocks, f uninterpreted"
+//@ harness name=tdes_ede3_roundtrip prop=C01 tier=quick bits=3136 stub=1 est=30 desc="W: TdesEde3 dec(enc(b)) == b and enc(dec(b)) == b on an arbitrary state (three arbitrary subkey arrays), all blocks; single DES an uninterpreted keyed bijection pair (justified by des_state_roundtrip)"
 tdes_roundtrip!(tdes_ede3_roundtrip, TdesEde3 { d1, d2, d3 }, 3);
-//@ harness name=tdes_eee3_roundtrip prop=C01 tier=quick bits=3136 stub=1 est=200 desc="W: TdesEee3 round trip both orders on an arbitrary state, f uninterpreted"
+//@ harness name=tdes_eee3_roundtrip prop=C01 tier=quick bits=3136 stub=1 est=30 desc="W: TdesEee3 round trip both orders on an arbitrary state; single DES an uninterpreted keyed bijection pair"
 tdes_roundtrip!(tdes_eee3_roundtrip, TdesEee3 { d1, d2, d3 }, 3);
-//@ harness name=tdes_ede2_roundtrip prop=C01 tier=quick bits=2112 stub=1 est=200 desc="W: TdesEde2 round trip both orders on an arbitrary state, f uninterpreted"
+//@ harness name=tdes_ede2_roundtrip prop=C01 tier=quick bits=2112 stub=1 est=30 desc="W: TdesEde2 round trip both orders on an arbitrary state; single DES an uninterpreted keyed bijection pair"
 tdes_roundtrip!(tdes_ede2_roundtrip, TdesEde2 { d1, d2 }, 2);
-//@ harness name=tdes_eee2_roundtrip prop=C01 tier=quick bits=2112 stub=1 est=200 desc="W: TdesEee2 round trip both orders on an arbitrary state, f uninterpreted"
+//@ harness name=tdes_eee2_roundtrip prop=C01 tier=quick bits=2112 stub=1 est=30 desc="W: TdesEee2 round trip both orders on an arbitrary state; single DES an uninterpreted keyed bijection pair"
 tdes_roundtrip!(tdes_eee2_roundtrip, TdesEee2 { d1, d2 }, 2);
 
 // ---------------------------------------------------------------- key relations (real code on both sides)
